@@ -537,9 +537,15 @@ def extract(repo, old_sections):
         while k < len(single) and isinstance(single[k], ast.Expr):
             srules.append(rule_of(single[k].value, {}))
             k += 1
+        def guarded_count(node, expr):
+            """try: exp_piece_count = <expr>  except OverflowError as e: raise error.MetainfoError(...)"""
+            return (isinstance(node, ast.Try) and len(node.body) == 1 and ast.unparse(node.body[0]) == 'exp_piece_count = ' + expr
+                    and len(node.handlers) == 1 and node.handlers[0].type is not None and ast.unparse(node.handlers[0].type) == 'OverflowError'
+                    and len(node.handlers[0].body) == 1 and isinstance(node.handlers[0].body[0], ast.Raise)
+                    and 'MetainfoError' in ast.unparse(node.handlers[0].body[0]) and not node.orelse and not node.finalbody)
         rest = [ast.unparse(x) for x in single[k:k + 3]]
         if not (rest[0] == "piece_count = int(len(info['pieces']) / 20)"
-                and rest[1] == "exp_piece_count = -(-info['length'] // info['piece length'])"
+                and guarded_count(single[k + 1], "-(-info['length'] // info['piece length'])")
                 and rest[2].startswith('if piece_count != exp_piece_count:')):
             fail('validate: singlefile piece count check changed: ' + repr(rest))
         if not (len(single) == k + 4 and ast.unparse(single[k + 3].test) == 'self.path is not None'):
@@ -559,7 +565,7 @@ def extract(repo, old_sections):
                 fail('validate: unexpected statement in files loop: ' + ast.unparse(st)[:80])
         rest = [ast.unparse(x) for x in multi[2:5]]
         if not (rest[0] == "piece_count = int(len(info['pieces']) / 20)"
-                and rest[1] == "exp_piece_count = -(-sum((fileinfo['length'] for fileinfo in info['files'])) // info['piece length'])"
+                and guarded_count(multi[3], "-(-sum((fileinfo['length'] for fileinfo in info['files'])) // info['piece length'])")
                 and rest[2].startswith('if piece_count != exp_piece_count:')):
             fail('validate: multifile piece count check changed: ' + repr(rest))
         if not (len(multi) == 6 and ast.unparse(multi[5].test) == 'self.path is not None'):
